@@ -28,7 +28,6 @@ Theorem C10_808_no_crash : forall parse_all evs, outcome808 (run808 parse_all ev
 Proof. exact no_crash_808. Qed.
 Print Assumptions C10_808_no_crash.
 
-(* ---------------- no panic in the attachment server's connection code ---------------- *)
 (* every id of createDefaultHandle has a model behind handler_parse_chk (7 by the location / reply-path models, 21 by
    C03's parse_msg): its "unknown id" answer is never what a registered type gets *)
 Theorem C10_parse_all_covers_registered :
@@ -36,6 +35,7 @@ Theorem C10_parse_all_covers_registered :
 Proof. exact parse_all_covers_registered. Qed.
 Print Assumptions C10_parse_all_covers_registered.
 
+(* ---------------- no panic in the attachment server's connection code ---------------- *)
 (* d = the configured dialect; the default data handler and the DEFAULT file handler (its OnEvent runs
    after every stage and once more when the connection ends, whatever the stage) *)
 Theorem C10_att_no_crash : forall d evs, outcomeatt (runatt d evs) <> Crash.
@@ -132,6 +132,22 @@ Theorem C10_never_owns_meaning : forall parse_all c s evs, never_owns parse_all 
   forall n, holds_no_key c (fold_left (step808 parse_all) (firstn n evs) s) = true.
 Proof. exact never_owns_prefixes. Qed.
 Print Assumptions C10_never_owns_meaning.
+
+(* REFUSED => NEVER OWNS, for every event list: a connection that holds no key in s and whose every claim (claimed_key of
+   each of its reads) is of a key in use at that moment - i.e. it is refused each time - satisfies never_owns; together
+   with C10_keyless_connection_invisible: claimants of keys in use are invisible to everybody else *)
+Theorem C10_refused_never_owns : forall parse_all c evs s, v_crashed s = false -> holds_no_key c s = true ->
+  all_claims_refused parse_all c s evs = true -> never_owns parse_all c s evs = true.
+Proof. exact refused_never_owns. Qed.
+Print Assumptions C10_refused_never_owns.
+
+(* a connection gains a key only through a read of its own that claims a key nobody else holds *)
+Theorem C10_key_gained_only_by_free_claim : forall parse_all c s e, v_crashed s = false -> holds_no_key c s = true ->
+  holds_no_key c (step808 parse_all s e) = false ->
+  exists now d k key, e = Data c now d /\ cfind c (v_conns s) = Some k /\
+                      claimed_key now k d = Some key /\ taken_by_others c (v_conns s) key = false.
+Proof. exact step808_gain. Qed.
+Print Assumptions C10_key_gained_only_by_free_claim.
 
 (* hence: a hostile connection that owns no key during the run - whatever it sends, whatever keys it claims, however
    it ends - leaves no trace in what any other connection is written or in whether it is ended *)
@@ -279,4 +295,19 @@ Example C10_ex_established :
   v_crashed s = false /\ joined 1 s = true /\ no_reconnect 1 evs = true /\
   map o_seq (fst (seen808 1 (fold_left (step808 false) evs s))) = [0; 1; 2] /\
   seen808 1 (fold_left (step808 false) evs s) = seen808 1 (fold_left (step808 false) (only 1 evs) s).
+Proof. vm_compute. repeat split; reflexivity. Qed.
+
+(* C10_refused_never_owns on the refused claimants of C10_refused_claimant (hypotheses computed) *)
+Example C10_ex_all_claims_refused :
+  let evs := [Connect 1; Data 1 0 ex_hb; Connect 2; Data 2 0 ex_hb; Data 1 9 ex_hb; Connect 3; Data 3 4 ex_hb; Data 2 5 ex_hb] in
+  all_claims_refused false 2 init808 evs = true /\ all_claims_refused false 3 init808 evs = true /\
+  all_claims_refused false 1 init808 evs = false.
+Proof. vm_compute. repeat split; reflexivity. Qed.
+
+(* the model witness of finding C10/att/same-phone-overwrite: two connections of the same terminal number do the same
+   upload one after the other; both final events hand os.WriteFile the SAME paths - the second overwrites the first *)
+Example C10_ex_same_phone_same_path :
+  let evs := [Connect 1; Data 1 0 C15.ex_stream; Close 1; Connect 2; Data 2 0 C15.ex_stream; Close 2] in
+  let paths c := flat_map (fun o => match o with ASaved _ files => map fst files | _ => [] end) (seenatt c (runatt 1 evs)) in
+  outcomeatt (runatt 1 evs) = Running /\ length (paths 1) = 2%nat /\ paths 1 = paths 2.
 Proof. vm_compute. repeat split; reflexivity. Qed.
